@@ -529,7 +529,10 @@ def bit_laws(facts, res):
     res.floor(R, n, 25, "bit-provenance obligations")
 
 
-def level_locality(facts, res, cls="TbfMortonSpaceIndex", R="C11.6.level-locality"):
+ALGEBRA_FNS = ("getBoxPosFromIndex", "getIndexFromBoxPos", "getParentIndex", "getChildIndexFromParent", "childPositionFromParent")
+
+
+def level_locality(facts, res, cls="TbfMortonSpaceIndex", R="C11.6.level-locality", min_level_fns=6, levels=True):
     """The grid of level l has 2^l cells per dimension: everything a function of the ordering that takes a LEVEL computes - limits, wrap
     moduli, masks - must come from that argument.  The tree height enters the ordering for the leaf level only (position -> leaf coordinate,
     the ...AtLeafLevel helpers).  Decided by reachability: no function with a level parameter reaches, through same-class callees, a call of
@@ -592,11 +595,44 @@ def level_locality(facts, res, cls="TbfMortonSpaceIndex", R="C11.6.level-localit
             if i.get("member") in fields and i.get("written") and any(reads_height(c_) for c_ in i.get("c", []) if c_):
                 height_members.setdefault(i["member"], m)
     level_fns = [m for m in methods if any(re.search(r"level", p_.get("name") or "", re.I) for p_ in m["params"])]
-    if len(level_fns) < 6:
-        raise AnalysisBroken("%s: %d functions with a level parameter (8 confirmed by reading)" % (cls, len(level_fns)))
+    if len(level_fns) < min_level_fns:
+        raise AnalysisBroken("%s: %d functions with a level parameter (%d confirmed by reading)" % (cls, len(level_fns), min_level_fns))
+    # the index algebra has no level argument at all (a cell's index and coordinates do not say which level they are of): it can satisfy
+    # parent containment at every level only if it does not depend on the height either
+    algebra = [m for m in methods if m["name"] in ALGEBRA_FNS]
+    if len(algebra) < 5:
+        raise AnalysisBroken("%s: %d of the level-free index-algebra functions found (%s)" % (cls, len(algebra), sorted(ALGEBRA_FNS)))
     res.instance(R, "%s" % cls, facts.loc(methods[0]), "%d functions take a level; height-only helpers %s; members filled from the height %s" % (len(level_fns), sorted(height_helpers) or "none", sorted(height_members) or "none"))
     n = 0
-    for m in level_fns:
+    for m in algebra:
+        seen = set()
+        stack = [(m, [m["name"]])]
+        hit = None
+        while stack and hit is None:
+            g, pathn = stack.pop()
+            if id(g) in seen:
+                continue
+            seen.add(id(g))
+            n += 1
+            for x in walk(tbf.body(g)):
+                if x.get("k") in ("CallExpr", "CXXMemberCallExpr"):
+                    nm = tbf.callee_name(x)
+                    if nm == "getTreeHeight" or nm in height_helpers:
+                        hit = (x, pathn, "calls %s()" % nm)
+                        break
+                    if nm in byname and (tbf.call_base(x) is None or strip(tbf.call_base(x)).get("k") == "CXXThisExpr"):
+                        for h in byname[nm]:
+                            if h["kind"] not in ("CXXConstructor", "CXXDestructor"):
+                                stack.append((h, pathn + [nm]))
+                elif x.get("k") in ("MemberExpr", "CXXDependentScopeMemberExpr") and x.get("name") in height_members and (not kids(x) or strip(kids(x)[0]).get("k") == "CXXThisExpr"):
+                    hit = (x, pathn, "reads the member '%s' filled from the tree height" % x["name"])
+                    break
+        if hit:
+            x, pathn, what = hit
+            res.violation(R, tbf.rel(facts.path_of(x)), m["qname"], "height-driven:%s" % m["name"], x["l"][1],
+                          "%s(...) has no level argument but %s%s: the same coordinates get one index whatever their level, computed as if they were leaf coordinates - for a curve whose index is not a plain bit interleave (Hilbert) the index of a cell above the leaves is then not the prefix of its descendants' indices, i.e. the parent of an index is not the cell that contains it"
+                          % (m["name"], ("through %s " % " -> ".join(pathn[1:])) if len(pathn) > 1 else "", what))
+    for m in (level_fns if levels else []):     # (for an ordering whose level-free algebra is already height-driven the list builders only inherit it)
         seen = set()
         stack = [(m, [m["name"]])]
         while stack:
@@ -653,6 +689,7 @@ def run(res, tier):
     bit_laws(facts, res)
     res.rule("C11.6 level locality (Morton ordering): no function that takes a level reaches, through same-class callees, getTreeHeight(), a height-only helper or a member filled from the height - limits, wrap moduli and masks of level l come from l")
     res.floor("C11.6", level_locality(facts, res), 8, "functions reachable from level-parameterised functions")
+    res.floor("C11.6.hilbert", level_locality(facts, res, cls="TbfHilbertSpaceIndex", min_level_fns=5, levels=False), 4, "functions reachable from the Hilbert ordering's level-parameterised / index-algebra functions")
     if deferred_ and len(res.violations) == nv0_:
         raise deferred_[0]
     res.rule("C11.5 lists and levels fit together: with the window clamps, wrap and shift, too-close threshold, empty-below level, self exclusion and upper-half filter read from the per-cell builders, every other leaf cell (non periodic) / every unwrapped leaf cell of the images -1..1 (periodic, heights from 1) reaches a target through the near list or the interaction list of exactly one level (rules/decomp.py; Dim 1 and 2)")
